@@ -114,6 +114,8 @@ func runSysFaults(o *common.Opts) {
 		n = 600
 	}
 	root := filepath.Join(o.Out, "sysf")
+	scens := o.Scens("SYSF", n)
+	n = len(scens)
 	results := make([][]sysRes, n)
 	var wg sync.WaitGroup
 	sem := make(chan struct{}, 8)
@@ -123,7 +125,7 @@ func runSysFaults(o *common.Opts) {
 		go func(i int) {
 			defer wg.Done()
 			defer func() { <-sem }()
-			results[i] = sysFaultScenario(o.Seed, i, root)
+			results[i] = sysFaultScenario(scens[i].Seed, scens[i].Idx, filepath.Join(root, fmt.Sprintf("k%d", i)))
 		}(i)
 	}
 	wg.Wait()
@@ -134,7 +136,7 @@ func runSysFaults(o *common.Opts) {
 				out.Count(c)
 			}
 			for _, f := range r.fails {
-				out.Fail(f[0], f[1], fmt.Sprintf("SYSF %d %d", o.Seed, i))
+				out.Fail(f[0], f[1], fmt.Sprintf("SYSF %d %d %s", scens[i].Seed, scens[i].Idx, o.Tier))
 			}
 		}
 	}
